@@ -165,8 +165,9 @@ class SymSeq(Model):
         return SymSeq("(%s%sc)" % (self.key, type(op).__name__), self.length, lambda idx: I.binop(op, self.at(I, idx), other))
 
     def iop(self, I, op, other):
-        r = self.binop(I, op, other, False)
-        self.key, self.elem = r.key, r.elem
+        old = SymSeq(self.key, self.length, self.elem, self.facts)
+        r = old.binop(I, op, other, False)
+        self.key, self.elem, self.facts = r.key, r.elem, None
         return self
 
     def m_sum(self, I, axis=None):
